@@ -2,6 +2,7 @@ package rules
 
 import (
 	"go/ast"
+	"go/token"
 	"go/types"
 	"sort"
 	"strings"
@@ -222,11 +223,24 @@ func c06r2(c *Ctx) {
 					for _, st := range cc.Body {
 						ast.Inspect(st, func(n ast.Node) bool {
 							as, ok := n.(*ast.AssignStmt)
-							if !ok || len(as.Lhs) != 1 {
+							if !ok {
 								return true
 							}
-							if sel, ok := ast.Unparen(as.Lhs[0]).(*ast.SelectorExpr); ok && sel.Sel.Name == "Data" {
-								if nt := ir.NamedOf(info.TypeOf(as.Rhs[0])); nt != nil {
+							for i, l := range as.Lhs {
+								sel, ok := ast.Unparen(l).(*ast.SelectorExpr)
+								if !ok || sel.Sel.Name != "Data" {
+									continue
+								}
+								var t types.Type
+								switch {
+								case len(as.Rhs) == len(as.Lhs):
+									t = info.TypeOf(as.Rhs[i])
+								case len(as.Rhs) == 1:
+									if call, ok := ast.Unparen(as.Rhs[0]).(*ast.CallExpr); ok {
+										t = resultConcreteType(f, call, i)
+									}
+								}
+								if nt := ir.NamedOf(t); nt != nil {
 									dt = nt.Obj().Name()
 								}
 							}
@@ -297,82 +311,193 @@ func c06r2(c *Ctx) {
 	}
 }
 
+// diffTable summarises how one side of the wallet classifies siacoin element
+// diffs: the loop over SiacoinElementDiffs() is explored path by path, the
+// truth values of the three conditions that matter (d.Created, d.Spent, the
+// element's address differs from the wallet's) are carried along each path
+// (contradictory combinations are pruned), and the list each path appends to
+// is recorded. The spelling of the branching (switch, if chain, early
+// continue, inverted tests) is irrelevant.
+type diffTable struct {
+	found    bool
+	created  types.Object // list appended to on paths where Created holds and Spent does not
+	spent    types.Object // list appended to on paths where Spent holds and Created does not
+	problems []string
+}
+
+func walletDiffTable(f *ir.Func) diffTable {
+	var t diffTable
+	var addr types.Object
+	for _, fld := range f.Type.Params.List {
+		if ir.IsNamed(f.Info().TypeOf(fld.Type), ir.PkgPath("types"), "Address") {
+			for _, nm := range fld.Names {
+				addr = f.Info().Defs[nm]
+			}
+		}
+	}
+	g := f.Graph()
+	for _, head := range g.Nodes {
+		rs, ok := head.AST.(*ast.RangeStmt)
+		if !ok || rs.Value == nil {
+			continue
+		}
+		call, ok := ast.Unparen(rs.X).(*ast.CallExpr)
+		if !ok || f.Callee(call) == nil || f.Callee(call).Name() != "SiacoinElementDiffs" {
+			continue
+		}
+		t.found = true
+		d := f.ObjOf(rs.Value)
+		rootedAtD := func(e ast.Expr) bool { o, _ := f.RootObj(e); return o == d && d != nil }
+		// atoms: 0 Created, 1 Spent, 2 foreign address
+		atom := func(cond ast.Expr) (int, bool, bool) {
+			cond = ast.Unparen(cond)
+			if sel, ok := cond.(*ast.SelectorExpr); ok && f.ObjOf(sel.X) == d {
+				switch sel.Sel.Name {
+				case "Created":
+					return 0, true, true
+				case "Spent":
+					return 1, true, true
+				}
+			}
+			if be, ok := cond.(*ast.BinaryExpr); ok && (be.Op == token.NEQ || be.Op == token.EQL) {
+				x, y := be.X, be.Y
+				if f.ObjOf(x) == addr && addr != nil {
+					x, y = y, x
+				}
+				if f.ObjOf(y) == addr && addr != nil && rootedAtD(x) && ir.IsNamed(f.TypeOf(x), ir.PkgPath("types"), "Address") {
+					return 2, be.Op == token.NEQ, true
+				}
+			}
+			return 0, false, false
+		}
+		// effects: appends to local lists
+		targets := map[types.Object]int{}
+		var order []types.Object
+		appendTarget := func(n *cfgx.Node) types.Object {
+			if n.AST == nil {
+				return nil
+			}
+			for _, w := range f.WritesIn(n.AST, false) {
+				if w.RHS == nil {
+					continue
+				}
+				if ac, ok := ast.Unparen(w.RHS).(*ast.CallExpr); ok {
+					if id, ok := ac.Fun.(*ast.Ident); ok && id.Name == "append" {
+						return f.ObjOf(w.LHS)
+					}
+				}
+			}
+			return nil
+		}
+		var body *cfgx.Edge
+		for _, e := range head.Succs {
+			if e.Kind == cfgx.Br0 {
+				body = e
+			}
+		}
+		if body == nil {
+			continue
+		}
+		const effShift = 8
+		type outcome struct{ st cfgx.State }
+		var outs []cfgx.State
+		g.Explore([]*cfgx.Visit{cfgx.StartAfter(body, 0)}, cfgx.Walker{
+			AtNode: func(n *cfgx.Node, st cfgx.State) (cfgx.State, bool) {
+				if n == head || n.Exit || len(n.Succs) == 0 {
+					outs = append(outs, st)
+					return st, false
+				}
+				if o := appendTarget(n); o != nil {
+					if _, ok := targets[o]; !ok {
+						targets[o] = len(order)
+						order = append(order, o)
+					}
+					st |= 1 << (effShift + targets[o])
+				}
+				return st, true
+			},
+			OnEdge: func(e *cfgx.Edge, st cfgx.State) (cfgx.State, bool) {
+				if e.Cond == nil || (e.Kind != cfgx.True && e.Kind != cfgx.False) {
+					return st, true
+				}
+				i, pos, ok := atom(e.Cond)
+				if !ok {
+					return st, true
+				}
+				want := cfgx.State(2) // false
+				if (e.Kind == cfgx.True) == pos {
+					want = 1
+				}
+				cur := (st >> (2 * i)) & 3
+				if cur != 0 && cur != want {
+					return st, false // contradicts an earlier test on this path
+				}
+				return st | want<<(2*i), true
+			},
+		})
+		val := func(st cfgx.State, i int) int { return int((st >> (2 * i)) & 3) }
+		for _, st := range outs {
+			eff := st >> effShift
+			if eff == 0 {
+				continue
+			}
+			cr, sp, foreign := val(st, 0), val(st, 1), val(st, 2)
+			if foreign != 2 {
+				t.problems = append(t.problems, "an element is collected on a path that did not establish that its address is the wallet's")
+			}
+			if cr == 1 && sp == 1 {
+				t.problems = append(t.problems, "an element created and spent in the same block (ephemeral) is collected")
+			}
+			for i, o := range order {
+				if eff&(1<<i) == 0 {
+					continue
+				}
+				switch {
+				case cr == 1 && sp != 1:
+					if t.created != nil && t.created != o {
+						t.problems = append(t.problems, "created elements are collected into two lists")
+					}
+					t.created = o
+				case sp == 1 && cr != 1:
+					if t.spent != nil && t.spent != o {
+						t.problems = append(t.problems, "spent elements are collected into two lists")
+					}
+					t.spent = o
+				default:
+					t.problems = append(t.problems, "an element is collected on a path that established neither Created nor Spent")
+				}
+			}
+			if sp == 0 && cr == 1 || cr == 0 && sp == 1 {
+				// the other flag was never tested on this path: ephemeral elements are not excluded
+				t.problems = append(t.problems, "an element is collected on a path that did not rule out created-and-spent (ephemeral)")
+			}
+		}
+		if t.created != nil && t.created == t.spent {
+			t.problems = append(t.problems, "created and spent elements are collected into the same list")
+		}
+	}
+	return t
+}
+
 func c06r3(c *Ctx) {
 	applyIdx := c.P.Method("wallet", "UpdateTx", "WalletApplyIndex")
 	revertIdx := c.P.Method("wallet", "UpdateTx", "WalletRevertIndex")
 	af, rf := walletSteps(c)
-	type side struct {
-		f     *ir.Func
-		cases map[string]types.Object // normalised condition → variable appended to ("" for skip)
-		ok    bool
-	}
-	analyse := func(f *ir.Func) side {
-		s := side{f: f, cases: map[string]types.Object{}}
-		var addr types.Object
-		for _, fld := range f.Type.Params.List {
-			if ir.IsNamed(f.Info().TypeOf(fld.Type), ir.PkgPath("types"), "Address") {
-				for _, nm := range fld.Names {
-					addr = f.Info().Defs[nm]
-				}
-			}
-		}
-		ir.Walk(f.Body, false, func(x ast.Node) {
-			rs, ok := x.(*ast.RangeStmt)
-			if !ok || rs.Value == nil {
-				return
-			}
-			call, ok := ast.Unparen(rs.X).(*ast.CallExpr)
-			if !ok || f.Callee(call) == nil || f.Callee(call).Name() != "SiacoinElementDiffs" {
-				return
-			}
-			d := f.ObjOf(rs.Value)
-			ir.Walk(rs.Body, false, func(y ast.Node) {
-				sw, ok := y.(*ast.SwitchStmt)
-				if !ok || sw.Tag != nil {
-					return
-				}
-				s.ok = true
-				for _, cl := range sw.Body.List {
-					cc := cl.(*ast.CaseClause)
-					if cc.List == nil {
-						continue
-					}
-					cond := ir.ExprString(cc.List[0])
-					if d != nil {
-						cond = strings.ReplaceAll(cond, d.Name()+".", "d.")
-					}
-					if addr != nil {
-						cond = strings.ReplaceAll(cond, " "+addr.Name(), " addr")
-					}
-					var target types.Object
-					for _, w := range f.WritesIn(&ast.BlockStmt{List: cc.Body}, false) {
-						if w.RHS != nil {
-							if ac, ok := ast.Unparen(w.RHS).(*ast.CallExpr); ok {
-								if id, ok := ac.Fun.(*ast.Ident); ok && id.Name == "append" {
-									target = f.ObjOf(w.LHS)
-								}
-							}
-						}
-					}
-					s.cases[cond] = target
-				}
-			})
-		})
-		return s
-	}
-	a, r := analyse(af), analyse(rf)
+	a, r := walletDiffTable(af), walletDiffTable(rf)
 	c.VisitGraph(af)
 	c.VisitGraph(rf)
 	ob := c.Ob(af, "same-case-set", af.Body.Pos())
-	keys := func(m map[string]types.Object) string {
-		var ks []string
-		for k := range m {
-			ks = append(ks, k)
-		}
-		sort.Strings(ks)
-		return strings.Join(ks, " | ")
+	switch {
+	case !a.found || !r.found:
+		ob.Bad(nil, "the apply or the revert step does not iterate over the update's siacoin element diffs")
+	case len(a.problems) > 0:
+		ob.Bad(nil, "apply step: %s: an element one side ignores (e.g. created and spent in the same block) is stored or removed by the other", a.problems[0])
+	case len(r.problems) > 0:
+		ob.Pos = c.P.Pos(rf.Body.Pos())
+		ob.Bad(nil, "revert step: %s: an element one side ignores (e.g. created and spent in the same block) is stored or removed by the other", r.problems[0])
+	default:
+		ob.OK("both steps skip ephemeral and foreign elements and split the rest by Created / Spent")
 	}
-	ob.Check(a.ok && r.ok && keys(a.cases) == keys(r.cases), nil, "the apply step classifies siacoin element diffs by {%s} but the revert step by {%s}: an element one side ignores (e.g. created and spent in the same block) is stored or removed by the other", keys(a.cases), keys(r.cases))
 	pos := func(f *ir.Func, fn *types.Func, i int) types.Object {
 		for _, call := range f.CallsTo(false, fn) {
 			if i < len(call.Expr.Args) {
@@ -382,9 +507,60 @@ func c06r3(c *Ctx) {
 		return nil
 	}
 	ob2 := c.Ob(af, "created-and-spent-in-position", af.Body.Pos())
-	ob2.Check(a.cases["d.Created"] != nil && a.cases["d.Created"] == pos(af, applyIdx, 1) && a.cases["d.Spent"] != nil && a.cases["d.Spent"] == pos(af, applyIdx, 2), nil,
-		"WalletApplyIndex must receive (created, spent) = (elements of the Created case, elements of the Spent case)")
+	ob2.Check(a.created != nil && a.created == pos(af, applyIdx, 1) && a.spent != nil && a.spent == pos(af, applyIdx, 2), nil,
+		"WalletApplyIndex must receive (created, spent) = (elements collected where Created holds, elements collected where Spent holds)")
 	ob3 := c.Ob(rf, "removed-and-unspent-in-position", rf.Body.Pos())
-	ob3.Check(r.cases["d.Created"] != nil && r.cases["d.Created"] == pos(rf, revertIdx, 1) && r.cases["d.Spent"] != nil && r.cases["d.Spent"] == pos(rf, revertIdx, 2), nil,
-		"WalletRevertIndex must receive (removed, unspent) = (elements of the Created case, elements of the Spent case)")
+	ob3.Check(r.created != nil && r.created == pos(rf, revertIdx, 1) && r.spent != nil && r.spent == pos(rf, revertIdx, 2), nil,
+		"WalletRevertIndex must receive (removed, unspent) = (elements collected where Created holds, elements collected where Spent holds)")
+}
+
+// resultConcreteType: the concrete type of the i-th result of a call to a
+// repository function whose every return hands back, in that position, a value
+// of one named type or of one of the function's type parameters (then the
+// call's type argument).
+func resultConcreteType(f *ir.Func, call *ast.CallExpr, i int) types.Type {
+	fn := f.Callee(call)
+	callee := f.P.FuncOf(fn)
+	if callee == nil {
+		return nil
+	}
+	// explicit or inferred instantiation
+	var targs *types.TypeList
+	fun := ast.Unparen(call.Fun)
+	if ix, ok := fun.(*ast.IndexExpr); ok {
+		fun = ast.Unparen(ix.X)
+	} else if ix, ok := fun.(*ast.IndexListExpr); ok {
+		fun = ast.Unparen(ix.X)
+	}
+	var id *ast.Ident
+	switch t := fun.(type) {
+	case *ast.Ident:
+		id = t
+	case *ast.SelectorExpr:
+		id = t.Sel
+	}
+	if id != nil {
+		if inst, ok := f.Info().Instances[id]; ok {
+			targs = inst.TypeArgs
+		}
+	}
+	var out types.Type
+	for _, r := range callee.Graph().Returns() {
+		rs, ok := r.AST.(*ast.ReturnStmt)
+		if !ok || i >= len(rs.Results) {
+			return nil
+		}
+		t := callee.TypeOf(rs.Results[i])
+		if tp, ok := t.(*types.TypeParam); ok {
+			if targs == nil || tp.Index() >= targs.Len() {
+				return nil
+			}
+			t = targs.At(tp.Index())
+		}
+		if t == nil || (out != nil && !types.Identical(out, t)) {
+			return nil
+		}
+		out = t
+	}
+	return out
 }
